@@ -217,6 +217,15 @@ func HarnessC14Window() {
 	tick := make(chan time.Time)
 	ctx, cancel := context.WithCancel(context.Background())
 	go kr.cleanOutLoop(ctx, &time.Ticker{C: tick})
+	// the first arrival comes an arbitrary time after the repository was made, possibly after a clean-up tick
+	// and an arbitrary time after that tick
+	vrt.Advance()
+	if vrt.Bool("tick.before.first.arrival") {
+		tb := time.Now()
+		tick <- tb
+		tick <- tb
+		vrt.Advance()
+	}
 	t1 := time.Now()
 	dup, err := kr.IsDuplicate(context.Background(), "k")
 	vrt.Assert(err == nil && !dup, "first arrival is accepted")
